@@ -3,7 +3,7 @@ use crate::model::*;
 use crate::rng::Rng;
 
 pub const ALPHA: &[char] = &[
-    'a', 'b', 'c', ' ', '\u{3000}', 'あ', '漢', 'é', 'd', 'x', '1', '2', 'い', '字', '𠮷', '😀', 'ア', '-', '.', 'Z', '\u{10FFFF}',
+    'a', 'b', 'c', ' ', '\u{3000}', 'あ', '漢', 'é', 'd', 'x', '1', '2', 'い', '字', '𠮷', '😀', 'ア', '-', '.', 'Z', '\u{10FFFF}', '\u{FEFF}',
 ];
 pub const CAT_NAMES: &[&str] = &[
     "SPACE", "ALPHA", "KANJI", "NUMERIC", "SYMBOL", "HIRAGANA", "KATAKANA", "GREEK", "X1", "X2", "X3", "X4", "X5", "X6", "X7", "X8", "X9", "X10", "X11", "X12",
@@ -92,6 +92,16 @@ pub fn gen_rows(rng: &mut Rng, n: usize, nl: usize, nr: usize, tag: &str, pool: 
             gen_surface(rng, pool, 3)
         };
         rows.push(LexRow { surface, l: rng.below(nl) as u16, r: rng.below(nr) as u16, cost: gen_cost(rng, tie_heavy), feat: gen_feature(rng, tag, i) });
+        if rng.chance(0.08) {
+            // the next row repeats surface and feature text and differs in its numbers only: still two words
+            let mut again = rows.last().unwrap().clone();
+            again.cost = gen_cost(rng, tie_heavy);
+            if rng.chance(0.5) {
+                again.l = rng.below(nl) as u16;
+                again.r = rng.below(nr) as u16;
+            }
+            rows.push(again);
+        }
     }
     rows
 }
@@ -126,6 +136,13 @@ pub fn gen_bigram(rng: &mut Rng, nr: usize, nl: usize, dual: bool, k_choice: Opt
     for row in right.iter_mut().chain(left.iter_mut()) {
         if row.len() == 1 && row[0].is_empty() {
             row[0] = "*".into();
+        }
+    }
+    if !right.is_empty() && rng.chance(0.02) {
+        // a feature string longer than the 4096-byte buffer of the CSV reader, with multi-byte characters
+        let i = rng.below(right.len());
+        if !right[i].is_empty() {
+            right[i][0] = format!("L{}", "あ".repeat(1400 + rng.below(50)));
         }
     }
     if !right.is_empty() && !left.is_empty() && rng.chance(0.8) {
@@ -314,7 +331,7 @@ pub fn gen_dict(rng: &mut Rng, cfg: &GenCfg) -> DictSpec {
     if rng.chance(0.3) {
         rng.shuffle(&mut unk);
     }
-    let pool: Vec<char> = if cfg.clean_space { ALPHA.iter().cloned().filter(|&c| !is_space(c)).collect() } else { ALPHA.to_vec() };
+    let pool: Vec<char> = ALPHA.iter().cloned().filter(|&c| c != '\u{FEFF}' && !(cfg.clean_space && is_space(c))).collect(); // (csv_core drops a U+FEFF that opens a file: no surface contains it)
     let nlex = 1 + rng.below(cfg.max_lex);
     let lex = gen_rows(rng, nlex, nl, nr, "L", &pool, cfg.tie_heavy, &[]);
     DictSpec { cats, def_order, ranges, unk, lex, conn }
@@ -322,7 +339,7 @@ pub fn gen_dict(rng: &mut Rng, cfg: &GenCfg) -> DictSpec {
 
 pub fn gen_user(rng: &mut Rng, spec: &DictSpec, cfg: &GenCfg) -> Vec<LexRow> {
     let (nr, nl) = spec.conn.dims();
-    let pool: Vec<char> = if cfg.clean_space { ALPHA.iter().cloned().filter(|&c| !is_space(c)).collect() } else { ALPHA.to_vec() };
+    let pool: Vec<char> = ALPHA.iter().cloned().filter(|&c| c != '\u{FEFF}' && !(cfg.clean_space && is_space(c))).collect(); // (csv_core drops a U+FEFF that opens a file: no surface contains it)
     let n = 1 + rng.below(5);
     gen_rows(rng, n, nl, nr, "V", &pool, cfg.tie_heavy, &spec.lex)
 }
